@@ -412,6 +412,8 @@ class World:
         self.by_thread = {}
         self.foreign_lexer_calls = 0
         self.nested_calls = 0
+        self.vfs = {}
+        self.io_yields = 0
         self.probes = {}
         self.switch_sites = {}
         self.fired = {}
@@ -456,11 +458,64 @@ class World:
                     return self.text[: int(self.fault.get("at", 0))]
                 return self.text
 
+        vfs = world.vfs  # path -> text: the part of the file system all actors share
+
+        def io_yield(a):
+            # a system call: the thread may lose the processor here
+            if a is not None and not a.done and world.sched.cur is a:
+                world.io_yields += 1
+                world.sched.yield_point(a)
+
+        class _FakeWriter:
+            def __init__(self, path):
+                self.path = path
+                self.parts = []
+                vfs[path] = ""  # opening for writing creates / truncates the file
+
+            def __enter__(self):
+                return self
+
+            def write(self, text):
+                self.parts.append(text)
+                vfs[self.path] = "".join(self.parts)
+                return len(text)
+
+            def close(self):
+                pass
+
+            def __exit__(self, *exc):
+                return False
+
+        class _FakeOS:
+            """What the package sees as `os` if it imports it: everything real except
+            the calls that change the file system, which act on the shared fake one
+            (the real file system is never touched)."""
+
+            def __getattr__(self, name):
+                import os as _os
+
+                return getattr(_os, name)
+
+            @staticmethod
+            def remove(path, *args, **kw):
+                io_yield(cur_actor())
+                if path not in vfs:
+                    raise FileNotFoundError(2, "No such file or directory (sim)", path)
+                del vfs[path]
+
+            unlink = remove
+
         class _FakeIO:
             @staticmethod
-            def open(filename, *args, **kw):
+            def open(filename, mode="r", *args, **kw):
                 a = cur_actor()
+                io_yield(a)
                 v = a.vfile if a is not None else None
+                if any(c in str(mode) for c in "wax+"):
+                    world.fired["io:scratch-write"] = world.fired.get("io:scratch-write", 0) + 1
+                    return _FakeWriter(filename)
+                if v is not None and filename != v.get("filename") and filename in vfs:
+                    return _FakeFile(vfs[filename], {})
                 if v is None:
                     raise FileNotFoundError(2, "No such file (sim)", filename)
                 f = v.get("fault") or {}
@@ -471,6 +526,7 @@ class World:
 
         def fake_check_output(path_list, **kw):
             a = cur_actor()
+            io_yield(a)  # the subprocess starts ...
             v = a.vfile if a is not None else None
             f = (v or {}).get("fault") or {}
             if f.get("kind") == "cpp-missing":
@@ -483,6 +539,16 @@ class World:
                 raise subprocess.CalledProcessError(1, path_list)
             text = v["text"] if v else ""
             fn = v["filename"] if v else "x.c"
+            src = path_list[-1] if path_list else fn
+            if v and src != fn:
+                # cpp was handed another path than the caller's file (a scratch copy):
+                # it reads what is at that path in the shared file system *now*
+                if src not in vfs:
+                    import subprocess
+
+                    raise subprocess.CalledProcessError(1, path_list)
+                text, fn = vfs[src], src
+            io_yield(a)  # ... and takes its time
             if f.get("kind") == "short-read":
                 world.fired["io:short-read"] = world.fired.get("io:short-read", 0) + 1
                 text = text[: int(f.get("at", 0))]
@@ -491,6 +557,11 @@ class World:
 
         pkg.io = _FakeIO
         pkg.check_output = fake_check_output
+        import os as _real_os
+
+        for name, val in list(vars(pkg).items()):
+            if val is _real_os:
+                setattr(pkg, name, _FakeOS())
 
     # -- probes -------------------------------------------------------------
     def probe(self, name, n=1):
@@ -1011,6 +1082,7 @@ class OpRunner:
                 cpp_path=op.get("cpp_path", "cpp"),
                 cpp_args=op.get("cpp_args", ""),
                 parser=parser,
+                encoding=op.get("encoding"),
             )
 
         try:
@@ -1034,6 +1106,7 @@ class OpRunner:
                     use_cpp=bool(op.get("use_cpp")),
                     cpp_path=op.get("cpp_path", "cpp"),
                     cpp_args=op.get("cpp_args", ""),
+                    encoding=op.get("encoding"),
                 )
                 fform = canon.ast_form(fast, self.pyc.Node)
                 res["fresh"] = _outcome_ok("ok", fform.text)
